@@ -51,6 +51,8 @@ structure CS where
   writerClosed : List Nat := []
   recv : Option Nat := none        -- the live receive task (connection it reads)
   faults : Nat := 0                -- connection faults seen (peer EOF / read error / write failure)
+  faulted : List Nat := []         -- the links they were seen on
+  everConnected : List Nat := []   -- links that were reported CONNECTED
   closeCalled : Bool := false
   closeReturned : Bool := false
   closeFromRecv : Bool := false    -- close() was called from inside the live receive task: that task is not cancelled, it ends by itself
@@ -113,9 +115,12 @@ def stepCore (s : CS) (e : Ev) : Option CS :=
     guard (t ≠ s.st && s.st ≠ .closed &&
            (match t with
             | .connected => s.connActive && s.okConn.isSome
-            | .disconnected => s.faults > 0
+            | .disconnected =>
+              -- a fault was seen on the current link, and that link has been shut before the report
+              s.faults > 0 && (match s.conn with | some c => s.faulted.contains c && s.writerClosed.contains c | none => false)
             | .closed => s.closeCalled))
-      { s with st := t, statusLog := s.statusLog ++ [t] }
+      { s with st := t, statusLog := s.statusLog ++ [t],
+               everConnected := (match t, s.okConn with | .connected, some c => c :: s.everConnected | _, _ => s.everConnected) }
   | .recvStart c => guard (s.recv.isNone && s.conn = some c && s.st ≠ .closed) { s with recv := some c }
   | .recvIter c progress => guard (s.recv = some c && progress && !s.closeFromRecv) s
   | .recvExit c cancelled =>
@@ -133,11 +138,12 @@ def stepCore (s : CS) (e : Ev) : Option CS :=
                sendConn := if (s.sendConn.find? (·.1 = sid)).isSome then s.sendConn else (sid, c) :: s.sendConn }
   | .writeFail c sid =>
     -- a failure on a link that has been replaced in the meantime is not a fault of the current link
-    guard (s.activeSends.contains sid && (s.lockHolder.isNone || s.lockHolder = some sid))
-      { s with faults := if s.conn = some c then s.faults + 1 else s.faults, lockHolder := none, failedSends := sid :: s.failedSends }
+    guard (s.activeSends.contains sid && (s.lockHolder.isNone || s.lockHolder = some sid) && linkOk s sid c)
+      { s with faults := if s.conn = some c then s.faults + 1 else s.faults, faulted := c :: s.faulted, lockHolder := none, failedSends := sid :: s.failedSends }
   | .drainFail c =>
     match s.lockHolder with
-    | some sid => some { s with faults := if s.conn = some c then s.faults + 1 else s.faults, lockHolder := none, failedSends := sid :: s.failedSends }
+    | some sid => guard (linkOk s sid c)       -- the link the lock holder writes to
+        { s with faults := if s.conn = some c then s.faults + 1 else s.faults, faulted := c :: s.faulted, lockHolder := none, failedSends := sid :: s.failedSends }
     | none => none
   | .sendReturn sid =>
     guard (s.activeSends.contains sid)
@@ -146,16 +152,18 @@ def stepCore (s : CS) (e : Ev) : Option CS :=
   | .closeCall => some { s with closeCalled := true }
   | .connCallInRecv => guard s.recv.isSome s
   | .closeCallInRecv => guard s.recv.isSome { s with closeCalled := true, closeFromRecv := true }
-  | .writerClose c => guard (s.st = .closed && s.conn = some c) { s with writerClosed := c :: s.writerClosed }
+  | .writerClose c =>
+    -- the current link is shut by close(), and when it is given up after a fault (before DISCONNECTED is reported)
+    guard (s.conn = some c && (s.st = .closed || s.faulted.contains c)) { s with writerClosed := c :: s.writerClosed }
   | .closeReturn =>
     guard (s.closeCalled && s.st = .closed && (s.recv.isNone || s.closeFromRecv) &&
            (match s.conn with | some c => s.writerClosed.contains c | none => true))
       { s with closeReturned := true }
   | .cfgWrite c => guard (s.okConn = some c && s.conn = some c) s
-  | .cfgFail c => guard (s.okConn = some c && s.connActive) { s with okConn := none, lastFailed := true, slept := false }
+  | .cfgFail c => guard (s.okConn = some c && s.connActive && s.st ≠ .connected) { s with okConn := none, lastFailed := true, slept := false }   -- (the configuration is written before CONNECTED is reported)
   | .envFeed _ => some s
-  | .envEof c => some (if s.conn = some c then { s with faults := s.faults + 1 } else s)
-  | .envReadErr c => some (if s.conn = some c then { s with faults := s.faults + 1 } else s)
+  | .envEof c => some (if s.conn = some c then { s with faults := s.faults + 1, faulted := c :: s.faulted } else s)
+  | .envReadErr c => some (if s.conn = some c then { s with faults := s.faults + 1, faulted := c :: s.faulted } else s)
 
 def step (s : CS) (e : Ev) : Option CS := (stepCore s e).map (fun s' => { s' with prev := some e })
 
